@@ -90,10 +90,32 @@ func main() {
 	if err := os.MkdirAll(*dst, 0o755); err != nil {
 		fatal("%v", err)
 	}
+	// package-level variables referenced by init functions must not be re-initialised by VerifReset
+	initRefs := map[types.Object]bool{}
+	for _, f := range pkg.Syntax {
+		for _, d := range f.Decls {
+			fd, ok := d.(*ast.FuncDecl)
+			if !ok || fd.Recv != nil || fd.Name.Name != "init" || fd.Body == nil {
+				continue
+			}
+			ast.Inspect(fd.Body, func(n ast.Node) bool {
+				if id, ok := n.(*ast.Ident); ok {
+					if v, ok := pkg.TypesInfo.Uses[id].(*types.Var); ok && v.Parent() == pkg.Types.Scope() {
+						initRefs[v] = true
+					}
+				}
+				return true
+			})
+		}
+	}
+	var reinitFuncs []string
 	for i, f := range pkg.Syntax {
 		name := filepath.Base(pkg.CompiledGoFiles[i])
-		r := &rewriter{fset: pkg.Fset, info: pkg.TypesInfo, file: f, name: name, pkg: pkg.Types}
+		r := &rewriter{fset: pkg.Fset, info: pkg.TypesInfo, file: f, name: name, pkg: pkg.Types, initRefs: initRefs}
 		out := r.run()
+		if r.reinitName != "" {
+			reinitFuncs = append(reinitFuncs, r.reinitName)
+		}
 		if err := os.WriteFile(filepath.Join(*dst, name), out, 0o644); err != nil {
 			fatal("%v", err)
 		}
@@ -115,7 +137,7 @@ func main() {
 	}
 	// runtime
 	copyTreeFiltered(*sim, filepath.Join(*dst, "verifsim"))
-	writeReset(pkg, *dst)
+	writeReset(pkg, *dst, reinitFuncs)
 	sort.Strings(rep.Unseamed)
 	b, _ := json.MarshalIndent(rep, "", " ")
 	os.WriteFile(filepath.Join(*dst, "simgen_report.json"), b, 0o644)
@@ -183,6 +205,8 @@ type rewriter struct {
 	useSim  bool
 	useOS   bool
 	tmp     int
+	initRefs   map[types.Object]bool
+	reinitName string
 }
 
 func (r *rewriter) site(n ast.Node, kind string) ast.Expr {
@@ -309,7 +333,90 @@ func (r *rewriter) run() []byte {
 	if err := format.Node(&buf, r.fset, r.file); err != nil {
 		fatal("format %s: %v", r.name, err)
 	}
+	if body := r.reinitBody(); body != "" {
+		r.reinitName = "verifReinit_" + strings.NewReplacer(".", "_", "-", "_").Replace(strings.TrimSuffix(r.name, ".go"))
+		fmt.Fprintf(&buf, "\n// %s re-creates the package-level objects declared in this file (generated).\nfunc %s() {\n%s}\n", r.reinitName, r.reinitName, body)
+		rep.Rewrites["reinit_func"]++
+	}
 	return buf.Bytes()
+}
+
+func hasCallOutsideFuncLit(e ast.Expr) bool {
+	found := false
+	ast.Inspect(e, func(n ast.Node) bool {
+		switch n.(type) {
+		case *ast.FuncLit:
+			return false
+		case *ast.CallExpr:
+			found = true
+		}
+		return !found
+	})
+	return found
+}
+
+func (r *rewriter) exprString(e ast.Node) string {
+	var b bytes.Buffer
+	if err := format.Node(&b, token.NewFileSet(), e); err != nil {
+		return ""
+	}
+	return b.String()
+}
+
+// reinitBody returns assignments that bring struct-valued package-level variables of this file
+// back to their declared initial value: state hidden inside such objects (a cache added to a
+// layout, a counter in a default logger) must not leak from one simulated case into the next.
+func (r *rewriter) reinitBody() string {
+	var out strings.Builder
+	for _, d := range r.file.Decls {
+		gd, ok := d.(*ast.GenDecl)
+		if !ok || gd.Tok != token.VAR {
+			continue
+		}
+		for _, sp := range gd.Specs {
+			vs := sp.(*ast.ValueSpec)
+			if len(vs.Names) != 1 || vs.Names[0].Name == "_" {
+				continue
+			}
+			obj := r.info.Defs[vs.Names[0]]
+			if obj == nil || r.initRefs[obj] {
+				continue
+			}
+			name := vs.Names[0].Name
+			switch {
+			case len(vs.Values) == 1:
+				v := ast.Unparen(vs.Values[0])
+				lit := v
+				if u, ok := v.(*ast.UnaryExpr); ok && u.Op == token.AND {
+					lit = ast.Unparen(u.X)
+				}
+				cl, ok := lit.(*ast.CompositeLit)
+				if !ok || hasCallOutsideFuncLit(v) {
+					continue
+				}
+				if t := r.info.TypeOf(cl); t != nil {
+					if _, isStruct := t.Underlying().(*types.Struct); !isStruct {
+						continue
+					}
+				}
+				if str := r.exprString(v); str != "" {
+					fmt.Fprintf(&out, "\t%s = %s\n", name, str)
+				}
+			case len(vs.Values) == 0 && vs.Type != nil:
+				t := r.info.TypeOf(vs.Type)
+				if t == nil {
+					continue
+				}
+				if _, isStruct := t.Underlying().(*types.Struct); !isStruct {
+					continue
+				}
+				if str := r.exprString(vs.Type); str != "" {
+					fmt.Fprintf(&out, "\t%s = *new(%s)\n", name, str)
+				}
+			}
+		}
+	}
+	return out.String()
 }
 
 func (r *rewriter) pre(c *astutil.Cursor) bool {
@@ -624,7 +731,7 @@ func (r *rewriter) rewriteCall(c *astutil.Cursor, n *ast.CallExpr) {
 	sel, _ := ast.Unparen(n.Fun).(*ast.SelectorExpr)
 	switch {
 	case pkg == "sync/atomic":
-		n.Fun = r.call("Pre", r.site(n, "atomic."+recv+"."+fn), n.Fun)
+		n.Fun = r.call(r.wrapper(n), r.site(n, "atomic."+recv+"."+fn), n.Fun)
 		rep.Rewrites["atomic"]++
 	case pkg == "sync" && (recv == "Mutex" || recv == "RWMutex") && sel != nil:
 		x := sel.X
@@ -653,7 +760,7 @@ func (r *rewriter) rewriteCall(c *astutil.Cursor, n *ast.CallExpr) {
 	case pkg == "sync" && recv == "Pool":
 		// type is replaced by verifsim.Pool, which yields itself
 	case pkg == "sync" && recv != "":
-		n.Fun = r.call("Pre", r.site(n, "sync."+recv+"."+fn), n.Fun)
+		n.Fun = r.call(r.wrapper(n), r.site(n, "sync."+recv+"."+fn), n.Fun)
 		rep.Rewrites["sync"]++
 	case pkg == "time" && recv == "" && fn == "Sleep":
 		c.Replace(r.call("Sleep", append([]ast.Expr{r.site(n, "sleep")}, n.Args...)...))
@@ -664,6 +771,18 @@ func (r *rewriter) rewriteCall(c *astutil.Cursor, n *ast.CallExpr) {
 	case pkg == "runtime" && fn == "Gosched":
 		c.Replace(r.call("Yield", r.site(n, "gosched")))
 	}
+}
+
+// wrapper picks verifsim.W<params><results> for the callee's signature (the
+// yield then sits after argument evaluation, directly before the operation);
+// signatures it has no wrapper for fall back to Pre (yield before the arguments).
+func (r *rewriter) wrapper(c *ast.CallExpr) string {
+	t := r.info.TypeOf(c.Fun)
+	sig, ok := t.(*types.Signature)
+	if !ok || sig.Variadic() || sig.Params().Len() > 3 || sig.Results().Len() > 2 {
+		return "Pre"
+	}
+	return fmt.Sprintf("W%d%d", sig.Params().Len(), sig.Results().Len())
 }
 
 func (r *rewriter) usesName(name string) bool {
@@ -769,7 +888,7 @@ func (r *rewriter) stripComments() {
 
 // ---------------------------------------------------------------- reset file
 
-func writeReset(pkg *packages.Package, dst string) {
+func writeReset(pkg *packages.Package, dst string, reinitFuncs []string) {
 	sc := pkg.Types.Scope()
 	has := func(name string) bool { return sc.Lookup(name) != nil }
 	field := func(v, f string) bool {
@@ -791,6 +910,9 @@ func writeReset(pkg *packages.Package, dst string) {
 	var b strings.Builder
 	b.WriteString("//go:build verif\n\npackage log\n\nimport \"github.com/go-spring/log/verifsim/simos\"\n\nvar _ = simos.Stdout\n\n")
 	b.WriteString("// VerifReset returns the package-level state to what it is at process start,\n// so that many simulated cases can share one process.\nfunc VerifReset() {\n")
+	for _, f := range reinitFuncs {
+		b.WriteString("\t" + f + "()\n")
+	}
 	add := func(name, code string) {
 		b.WriteString("\t" + code + "\n")
 		rep.ResetVars = append(rep.ResetVars, name)
